@@ -181,6 +181,17 @@ def run(p, report, tier):
                 parts = []
                 for a in n.args:
                     parts += list(a.elts) if isinstance(a, (ast.List, ast.Tuple)) else [a]
+                # a filler bound to a name first (`y_cand = np.full(...)`) is looked through
+                resolved = []
+                for x in parts:
+                    if isinstance(x, ast.Name):
+                        ds = [d for d in ast.walk(f.node) if isinstance(d, ast.Assign) and len(d.targets) == 1
+                              and isinstance(d.targets[0], ast.Name) and d.targets[0].id == x.id]
+                        if len(ds) == 1 and _is_alloc_full(ds[0].value):
+                            resolved.append(ds[0].value)
+                            continue
+                    resolved.append(x)
+                parts = resolved
                 has_y = any((names_in(x) & ylike) and not _is_nan_full(x) for x in parts)
                 fillers = [x for x in parts if _is_alloc_full(x)]
                 if has_y and fillers:
@@ -280,6 +291,58 @@ def run(p, report, tier):
             report.add("R9.3", f.qual, f"construction {site_id(n, 70)}", f"{f.file}:{n.lineno}", has,
                        detail="missing_label passed explicitly" if has else
                        f"{ci.name} is constructed with the NaN default sentinel")
+    # ---------------- R9.7 after the labels were encoded the raw class list is used only through the encoder
+    report.rule("R9.7", "in a function that label-encodes y (le.fit_transform / transform) the raw class list "
+                "(self.classes / classes) is, from then on, used only as an argument of the encoder or of a "
+                "validator / len(): encoded labels are never compared with raw class values", floor=2)
+    ALLOWED97 = {"argsort", "transform", "fit_transform", "fit", "ExtLabelEncoder", "LabelEncoder", "len", "check_classes", "check_type",
+                 "check_cost_matrix", "check_class_prior", "check_scalar", "format", "isinstance", "compute_vote_vectors",
+                 "majority_vote", "ext_confusion_matrix", "ParzenWindowClassifier", "MixtureModelClassifier"}
+    n97 = 0
+    for f in p.all_functions():
+        if f.file.startswith("skactiveml/visualization") or "/tests/" in f.file:
+            continue
+        encs = {"self._le"}
+        for n in ast.walk(f.node):
+            if isinstance(n, ast.Assign) and isinstance(n.value, ast.Call) and c01.callname(n.value) in (
+                    "ExtLabelEncoder", "LabelEncoder"):
+                encs |= {ast.unparse(t) for t in n.targets}
+        enc_lines = [n.lineno for n in ast.walk(f.node) if isinstance(n, ast.Assign) and isinstance(n.value, ast.Call)
+                     and c01.callname(n.value) in ("fit_transform", "transform") and isinstance(n.value.func, ast.Attribute)
+                     and ast.unparse(n.value.func.value) in encs and n.value.args
+                     and (names_in(n.value.args[0]) & {"y", "y_true", "y_pred"})]
+        if not enc_lines:
+            continue
+        first = min(enc_lines)
+        parents = {}
+        for x in ast.walk(f.node):
+            for ch in ast.iter_child_nodes(x):
+                parents[ch] = x
+        for x in ast.walk(f.node):
+            is_raw = (isinstance(x, ast.Attribute) and x.attr == "classes" and isinstance(x.value, ast.Name)
+                      and x.value.id == "self" and isinstance(x.ctx, ast.Load)) or (
+                isinstance(x, ast.Name) and x.id == "classes" and isinstance(x.ctx, ast.Load)
+                and "classes" in f.all_param_names())
+            if not is_raw or x.lineno <= first:
+                continue
+            cur, call = x, None
+            while cur in parents and not isinstance(parents[cur], ast.stmt):
+                cur = parents[cur]
+                if isinstance(cur, ast.Call):
+                    call = cur
+                    break
+            st = x
+            while st in parents and not isinstance(st, ast.stmt):
+                st = parents[st]
+            ok = (call is not None and c01.callname(call) in ALLOWED97) or (
+                isinstance(parents.get(x), ast.Compare) and any(isinstance(c_, ast.Constant) and c_.value is None
+                                                                 for c_ in parents[x].comparators))
+            n97 += 1
+            report.add("R9.7", f.qual, f"raw classes in `{norm_stmt(st, 70)}` after the labels were encoded", f"{f.file}:{x.lineno}",
+                       ok, detail="only handed to the encoder / a validator" if ok else
+                       "the raw class values are used next to label-encoded y: correct only when the classes are literally "
+                       "0..K-1")
+    report.analysed["raw_class_uses_after_encoding"] = n97
     # ---------------- R9.6 predictions are re-encoded originals: indices are decoded (shared with C11 R11.1)
     from . import c11
     report.rule("R9.6", "predict of every project classifier decodes a class index selected over costs / probabilities "
@@ -306,4 +369,4 @@ def _is_nan_full(x):
     for k in x.keywords:
         if k.arg == "fill_value":
             fill = k.value
-    return fill is not None and ast.unparse(fill) in ("np.nan", "numpy.nan", "np.NaN", "float('nan')")
+    return fill is not None and ast.unparse(fill) in ("np.nan", "numpy.nan", "np.NaN", "float('nan')", "MISSING_LABEL")
